@@ -19,7 +19,7 @@ RULE = (
     "|log det| > 1e-3 at the evaluated point"
 )
 ASSUMPTIONS = ["both sides evaluate the same leaf code: agreement to 1e-9 relative (float64); the bijection side is judged by C01/C02",
-               "numerically inverted directions (BNAF) use 1e-5 relative"]
+               "numerically inverted directions (BNAF) use 1e-3 relative; the cross-path comparison log_prob(sample) adds 1e3 x the observed inversion error of the base point"]
 BASES = ["StandardNormal", "Normal", "StudentT", "Uniform", "CondBase"]
 
 
@@ -39,10 +39,10 @@ def enumerate_cases(tier, seed):
     if tier == "quick":
         sel = g._one_per_kind(sel)
     cases = []
-    for s in sel:
+    for si, s in enumerate(sel):
         for bi, base in enumerate(BASES):
-            if tier == "quick" and "c" in s and bi not in (0, 4) and (hash(g.canon(s)) + bi) % 3:
-                continue  # compositions: every base appears, each composition gets StandardNormal, CondBase + one more
+            if tier == "quick" and "c" in s and bi != (4 if si % 2 else (si // 2) % 4):
+                continue  # quick: compositions alternate between the conditional base and one of the four others
             cases.append({"id": f"{base}|" + g.canon(s), "leg": "expr", "spec": s, "base": base, "x64": True, "seed": seed})
     for f in c01.FACTORIES:
         for inv in (True, False):
@@ -86,50 +86,74 @@ def tree_close(a, b, rt):
         return bool(np.all((np.abs(a - b) <= rt * (1 + np.abs(b))) | (a == b) | (np.isnan(a) & np.isnan(b))))
 
 
+_PATHS = {}
+
+
+def _paths(fwd, inv):
+    """One jitted program per (structure, available directions) computing every path and its definition."""
+    if (fwd, inv) in _PATHS:
+        return _PATHS[(fwd, inv)]
+    import equinox as eqx
+    import jax.numpy as jnp
+
+    @eqx.filter_jit
+    def f(dist, key, x, cond):
+        base, b = dist.base_dist, dist.bijection
+        cb = cond if base.cond_shape is not None else None
+        out = {}
+        if fwd:
+            out["s"] = dist.sample(key, (), cond)
+            out["s_def"] = b.transform(base.sample(key, (), cb), cond)
+            out["s2"], out["lp2"] = dist.sample_and_log_prob(key, (), cond)
+            zz, lpb = base.sample_and_log_prob(key, (), cb)
+            out["lp2_def"] = lpb - b.transform_and_log_det(zz, cond)[1]
+            if inv:
+                out["lp_s"] = dist.log_prob(out["s2"], cond)
+                out["dz"] = jnp.max(jnp.abs(b.inverse(out["s2"], cond) - zz)) if zz.size else jnp.zeros(())
+        if inv:
+            out["lp_x"] = dist.log_prob(x, cond)
+            _, ld = b.inverse_and_log_det(x, cond)
+            want = base.log_prob(b.inverse(x, cond), cb) + ld
+            out["lp_x_def"] = jnp.where(jnp.isnan(want), -jnp.inf, want)
+            out["ld"] = ld
+        return out
+
+    _PATHS[(fwd, inv)] = f
+    return f
+
+
 def judge(dist, fwd, inv, rt, add, tag, keys, xs, cond, counters):
     """Returns transitions."""
     import jax.numpy as jnp
 
-    base, b = dist.base_dist, dist.bijection
+    f = _paths(bool(fwd), bool(inv))
     tr = 0
-    cb = cond if base.cond_shape is not None else None
-    samples = []
-    if fwd:
-        for key in keys:
-            s = dist.sample(key, (), cond)
-            z = base.sample(key, (), cb)
-            want = b.transform(z, cond)
-            tr += 1
-            if not tree_close(s, want, rt):
-                add(f"{tag}|sample", f"{tag}: sample(key) = {np.asarray(s).tolist()} but bijection.transform(base.sample(key)) = {np.asarray(want).tolist()}")
-            s2, lp2 = dist.sample_and_log_prob(key, (), cond)
-            tr += 1
-            if not tree_close(s2, s, rt):
-                add(f"{tag}|joint-sample", f"{tag}: sample_and_log_prob(key)[0] differs from sample(key)")
+    xs = [jnp.asarray(x, float) for x in xs]
+    for ki, key in enumerate(keys):
+        for xi, x in enumerate(xs if inv else xs[:1]):
+            if xi > 0 and ki > 0:
+                continue
+            o = {k: np.asarray(v) for k, v in f(dist, key, x, cond).items()}
+            if fwd and xi == 0:
+                tr += 3
+                if not tree_close(o["s"], o["s_def"], rt):
+                    add(f"{tag}|sample", f"{tag}: sample(key) = {o['s'].tolist()} but bijection.transform(base.sample(key)) = {o['s_def'].tolist()}")
+                if not tree_close(o["s2"], o["s"], rt):
+                    add(f"{tag}|joint-sample", f"{tag}: sample_and_log_prob(key)[0] differs from sample(key)")
+                if not tree_close(o["lp2"], o["lp2_def"], rt):
+                    add(f"{tag}|joint-definition", f"{tag}: joint log-prob {float(o['lp2'])!r} != base log-prob - forward log-det {float(o['lp2_def'])!r}")
+                if inv:
+                    tr += 1
+                    dz = float(o["dz"])
+                    # cross-path: log_prob re-inverts the sample; the admissible difference scales with how well
+                    # the inverse recovers the base point (conditioning of the map at that point)
+                    if np.isfinite(dz) and not tree_close(o["lp2"], o["lp_s"], max(rt, 1e-8) + 1e3 * dz):
+                        add(f"{tag}|joint-logprob", f"{tag}: log-prob returned with the sample {float(o['lp2'])!r} != log_prob(sample) {float(o['lp_s'])!r}")
             if inv:
-                lp = dist.log_prob(s2, cond)
                 tr += 1
-                if not tree_close(lp2, lp, max(rt, 1e-8)):
-                    add(f"{tag}|joint-logprob", f"{tag}: log-prob returned with the sample {float(lp2)!r} != log_prob(sample) {float(lp)!r}")
-            else:
-                zz, lpb = base.sample_and_log_prob(key, (), cb)
-                _, fld = b.transform_and_log_det(zz, cond)
-                tr += 1
-                if not tree_close(lp2, lpb - fld, rt):
-                    add(f"{tag}|joint-logprob", f"{tag}: joint log-prob {float(lp2)!r} != base log-prob - forward log-det {float(lpb - fld)!r}")
-            samples.append(s)
-    if inv:
-        pts = list(samples) + list(xs)
-        for x in pts:
-            x = jnp.asarray(x)
-            lp = dist.log_prob(x, cond)
-            z, ld = b.inverse_and_log_det(x, cond)
-            want = base.log_prob(b.inverse(x, cond), cb) + ld
-            want = jnp.where(jnp.isnan(want), -jnp.inf, want)
-            tr += 1
-            counters["nontrivial"] = counters.get("nontrivial", 0) + int(abs(float(ld)) > 1e-3)
-            if np.shape(lp) != () or not tree_close(lp, want, rt):
-                add(f"{tag}|log_prob", f"{tag}: log_prob({np.asarray(x).tolist()}) = {float(lp)!r} but base.log_prob(inverse(x)) + inverse log-det = {float(want)!r} (log-det {float(ld)!r})")
+                counters["nontrivial"] = counters.get("nontrivial", 0) + int(abs(float(o["ld"])) > 1e-3)
+                if o["lp_x"].shape != () or not tree_close(o["lp_x"], o["lp_x_def"], rt):
+                    add(f"{tag}|log_prob", f"{tag}: log_prob({np.asarray(x).tolist()}) = {float(o['lp_x'])!r} but base.log_prob(inverse(x)) + inverse log-det = {float(o['lp_x_def'])!r} (log-det {float(o['ld'])!r})")
     return tr
 
 
@@ -161,6 +185,8 @@ def run_case(case):
             b = g.build(spec, 0, level, seed)
             if tuple(b.shape) != ii.shape:
                 continue
+            if np.any(ii.dom != "R"):
+                continue  # the base distributions have full real support: the bijection must be defined on all of it
             if case["base"] == "CondBase" and ii.cond_shape is not None and len(ii.cond_shape) == 0 and False:
                 continue
             base = make_base(case["base"], ii.shape, ii.cond_shape, seed)
@@ -175,7 +201,7 @@ def run_case(case):
             if not ii.fwd or np.any(ii.cod == "X"):
                 xs = [np.full(ii.shape, v) for v in (0.3, -0.4)] if not np.any(np.isin(ii.cod, ["P"])) else [np.full(ii.shape, 0.7)]
             xs.append(np.full(ii.shape, 0.45))
-            rt = 1e-5 if (ii.num_fwd or ii.num_inv) else 1e-9
+            rt = 1e-3 if (ii.num_fwd or ii.num_inv) else 1e-9
             try:
                 tr += judge(dist, ii.fwd, ii.inv, rt, add, tag, keys, xs, cond, counters)
             except Exception as e:
@@ -187,7 +213,7 @@ def run_case(case):
         for level in (0, 1, 2):
             dist = c01.build_factory(case["factory"], case["invert"], case["cond"], seed, level)
             cond = None if case["cond"] is None else jnp.asarray([0.7, -1.3])
-            rt = 1e-5 if (fi.num_fwd or fi.num_inv) else 1e-9
+            rt = 1e-3 if (fi.num_fwd or fi.num_inv) else 1e-9
             tr += judge(dist, fi.fwd, fi.inv, rt, add, tag, keys, [np.asarray([0.4, -0.9]), np.asarray([-2.0, 1.5])], cond, counters)
         sample = {"dist": tag}
     else:
@@ -208,14 +234,15 @@ def run_case(case):
                 continue
             cs = nested.cond_shape
             cond = None if cs is None else jnp.asarray([0.3, -0.8])
-            tr += judge(nested, True, True, 1e-9, add, tag, keys, [np.asarray([0.2, -0.5])], cond, counters)
+            rt = 1e-3 if (g.info(a).num_inv or g.info(b_).num_inv) else 1e-9
+            tr += judge(nested, True, True, rt, add, tag, keys, [np.asarray([0.2, -0.5])], cond, counters)
             if isinstance(merged.base_dist, D.AbstractTransformed) and not isinstance(base, D.AbstractTransformed):
                 add(f"{tag}|merge-not-flat", f"{tag}: merge_transforms left a nested AbstractTransformed base")
             for key in keys:
                 s0, l0 = nested.sample_and_log_prob(key, (), cond)
                 s1, l1 = merged.sample_and_log_prob(key, (), cond)
                 tr += 2
-                if not (tree_close(s0, s1, 1e-9) and tree_close(l0, l1, 1e-9)):
+                if not (tree_close(s0, s1, 1e-9) and tree_close(l0, l1, 1e-9)):  # same forward computations on both sides
                     add(f"{tag}|merge-sample", f"{tag}: merge_transforms changed sample_and_log_prob: {np.asarray(s0).tolist()} / {float(l0)} vs {np.asarray(s1).tolist()} / {float(l1)}")
                 x = jnp.asarray([0.2, -0.5])
                 if not tree_close(nested.log_prob(x, cond), merged.log_prob(x, cond), 1e-9):
